@@ -7,6 +7,7 @@ Case kinds
         build class M(NAMES=names), m = M(span, dtype=..., **vals), add the extra variables, write status / iterations,
         df = m.to_dataframe(flags); then (class with cls.names).from_dataframe(df, dtype=, default_value=, strict=)
   {'kind': 'solved', 'script': str, 'span': spec, 'x': [cells], 'flags': [...]}      a parsed + solved model, same observations
+  {'kind': 'container', 'span': spec, 'vars': [[name, dtype, [cells]]], 'model': bool}     VectorContainer.to_dataframe
   {'kind': 'linker', 'name': cell, 'span': spec, 'lnames': [...], 'subs': [[key cell, names, {name: cells}]], 'flags': [...]}
   {'kind': 'symbols', 'syms': [[name|None, type int, lags|None, leads|None, equation|None, code|None]]} | {'kind': 'symbols', 'script': s}
         symbols_to_dataframe, then dataframe_to_symbols
@@ -257,7 +258,7 @@ def obs_table(df):
 def obs_model(m):
     return {'span': {'kind': span_kind_name(m.span), 'labels': [enc(x) for x in m.span]},
             'names': list(m.names),
-            'vars': [[k, np_kind(m[k]), [enc(x) for x in m[k]]] for k in m.names],
+            'vars': [[k, np_kind(m[k]), [enc(x) for x in m[k]]] for k in dict.fromkeys(m.names) if k in m.index and k not in ('status', 'iterations')],
             'status': [np_kind(m.status), [enc(x) for x in m.status]],
             'iterations': [np_kind(m.iterations), [enc(x) for x in m.iterations]]}
 
@@ -280,6 +281,8 @@ def _build_model(case):
     m = M(span, dtype=PYT[case['dtype']], **vals)
     for name, dt, cells in case.get('extra', []):
         m.add_variable(name, [dec(c) for c in cells], dtype=PYT[dt])
+    for nm in case.get('tamper', []):
+        m.names.append(nm)                       # malformed stream: a names list edited by hand
     if case.get('status') is not None:
         m.status[:] = [dec(c) for c in case['status']]
     if case.get('iters') is not None:
@@ -327,6 +330,13 @@ def impl(case):
                 kw['strict'] = True
             obs['rt'] = _attempt(lambda: obs_model(M2.from_dataframe(df, **kw)))
         return obs
+    if k == 'container':
+        c = fsic.core.containers.VectorContainer(build_span(case['span'])) if not case.get('model') else fsic.BaseModel(build_span(case['span']))
+        for name, dt, cells in case['vars']:
+            c.add_variable(name, [dec(x) for x in cells], dtype=PYT[dt])
+        return {'index': [[kk, np_kind(c[kk]), [enc(x) for x in c[kk]]] for kk in c.index],
+                'labels': [enc(x) for x in c.span],
+                'table': _attempt(lambda: obs_table(fsic.core.containers.VectorContainer.to_dataframe(c)))}
     if k == 'linker':
         span = build_span(case['span'])
         subs = {}
@@ -393,7 +403,7 @@ EXTRACT_V = r'''
 Require Import PyBase Generated Symbols Table.
 Require Import ExtrOcamlBasic ExtrOcamlString.
 Extraction Language OCaml.
-Extraction "%(out)s" model_to_table from_table linker_to_tables symbols_to_table table_to_symbols
+Extraction "%(out)s" model_to_table container_to_table from_table linker_to_tables symbols_to_table table_to_symbols
   type_of_value type_value string_of_Z Z_of_string.
 '''
 
@@ -534,6 +544,9 @@ let handle line =
       let l = { lname = cell_of name; lmodel = model_of m;
                 lsubs = List.map (function L [k; sm] -> (cell_of k, model_of sm) | _ -> failwith "sub") (list_of subs) } in
       "{\"tables\":" ^ jres (jlist (fun (k, t) -> "[" ^ jcell k ^ "," ^ jtable t ^ "]")) (linker_to_tables (bool_of st) (bool_of it) (bool_of ii) l) ^ "}"
+  | L [A "container"; sp; vars] ->
+      let vs = List.map (function L [n; s] -> (str_of n, series_of s) | _ -> failwith "var") (list_of vars) in
+      "{\"table\":" ^ jres jtable (container_to_table (span_of sp) vs) ^ "}"
   | L [A "symbols"; ss] ->
       let t = symbols_to_table (List.map sym_of (list_of ss)) in
       let rt = match t with TOk tb -> jres (jlist jsym) (table_to_symbols tb) | _ -> "null" in
@@ -669,7 +682,7 @@ def expected_pre(case):
     default = {'float': ['fi', 0], 'int': ['i', 0], 'bool': ['b', False], 'str': ['s', '0.0']}[case['dtype']]
     vars_ = [[k, case['dtype'], case['vals'].get(k, [default] * n)] for k in case['names']]
     vars_ += [[k, d, cs] for k, d, cs in case.get('extra', [])]
-    return {'names': [v[0] for v in vars_], 'vars': vars_,
+    return {'names': [v[0] for v in vars_] + list(case.get('tamper', [])), 'vars': vars_,
             'status': ['str', case['status'] if case.get('status') is not None else [['s', '-']] * n],
             'iterations': ['int', case['iters'] if case.get('iters') is not None else [['i', -1]] * n],
             'labels': span_labels(case['span'])}
@@ -720,6 +733,8 @@ def modellable(case, o):
     if k in ('export', 'solved'):
         pre = o.get('pre')
         return pre is not None and all(cells_ok(v[2]) and v[1] in NDT for v in pre['vars']) and cells_ok(pre['span']['labels'])
+    if k == 'container':
+        return all(cells_ok(v[2]) and v[1] in NDT for v in o['index']) and cells_ok(o['labels'])
     if k == 'symbols':
         return all(type(s[1]) is int and s[6] == 'Type' and all(x is None or (x[0] in ('i', 's') and (x[0] != 's' or latin1(x[1]))) for x in (s[0], s[2], s[3], s[4], s[5]))
                    for s in o['syms'])
@@ -746,6 +761,8 @@ def encode(case, o):
         subs = ' '.join('(%s %s)' % (sx_cell(kk), sx_model_from_obs(case['span'], m)) for kk, m in pre['subs'])
         lspan = case['span'] if case['subs'] else {'type': 'list', 'labels': []}
         return '(linker %d %d %d %s %s (%s))' % (st, it, ii, sx_cell(case['name']), sx_model_from_obs(lspan, pre['linker']), subs)
+    if k == 'container':
+        return '(container %s (%s))' % (sx_span(case['span']), ' '.join('(%s (%s %s))' % (hexs(kk), NDT[d], sx_cells(cs)) for kk, d, cs in o['index']))
     if k == 'symbols':
         return '(symbols (%s))' % ' '.join(sx_sym(s) for s in o['syms'])
     if k == 't2s':
@@ -764,7 +781,7 @@ def compare(case, o, r):
         if k == 'export':
             exp = expected_pre(case)
             pre = o['pre']
-            if [list(v) for v in pre['vars']] != exp['vars'] or pre['status'] != exp['status'] or pre['iterations'] != exp['iterations'] \
+            if [list(v) for v in pre['vars']] != exp['vars'] or pre['names'] != exp['names'] or pre['status'] != exp['status'] or pre['iterations'] != exp['iterations'] \
                     or pre['span']['labels'] != exp['labels']:
                 return 'the built object does not hold the values of the case: %s vs %s' % (json.dumps(pre)[:300], json.dumps(exp)[:300])
         if r['table'] == {'unmodelled': True}:
@@ -775,6 +792,10 @@ def compare(case, o, r):
             if canon_model(o['rt']) != r['rt']:
                 return 'from_dataframe: impl %s model %s' % (json.dumps(canon_model(o['rt']))[:600], json.dumps(r['rt'])[:600])
         return None
+    if k == 'container':
+        if r['table'] == {'unmodelled': True}:
+            return None
+        return None if canon_table(o['table']) == r['table'] else 'table: impl %s model %s' % (json.dumps(canon_table(o['table']))[:600], json.dumps(r['table'])[:600])
     if k == 'linker':
         if 'raise' in o:
             return 'linker construction raised %s' % o['raise']
@@ -867,8 +888,8 @@ def oracle_table(pre, table, flags, site, fails):
         bad('columns', 'names-or-order', 'columns %s, expected %s' % (cols, want))
         return
     series = {k: (d, cs) for k, d, cs in pre['vars']}
-    series['status'] = tuple(pre['status'])
-    series['iterations'] = tuple(pre['iterations'])
+    series.setdefault('status', tuple(pre['status']))          # a plain container may own variables of these names
+    series.setdefault('iterations', tuple(pre['iterations']))
     for name, dtype, cells in table['cols']:
         d, cs = series[name]
         if cells != cs:
@@ -886,11 +907,14 @@ def oracle(case, o):
     def bad(site, clause, cls, what):
         fails.append({'sig': 'C19|%s|%s|%s' % (site, clause, cls), 'what': what})
     if k in ('export', 'solved'):
+        if case.get('tamper'):
+            return fails                          # a hand-edited names list is outside the property's models: K only
         pre = o['pre']
         oracle_table(pre, o['table'], case['flags'], 'to_dataframe', fails)
         cl = case.get('cls')
         natural = cl is None or (cl['names'] == case.get('names') and cl.get('dtype') in (None, case.get('dtype')) and cl.get('default') is None
-                                 and not (cl.get('strict') and (case['flags'][0] or case['flags'][1])))
+                                 and not (cl.get('strict') and (case['flags'][0] or case['flags'][1] or case.get('extra'))))
+        # strict=True documents an InitialisationError for columns outside NAMES: such calls are not "the data columns" of the class
         if natural and 'rt' in o and 'raise' not in o['table']:
             rt = o['rt']
             data_cols = [c for c in o['table']['cols'] if c[0] not in ('status', 'iterations')]
@@ -913,6 +937,10 @@ def oracle(case, o):
                                 'integer variable %s: %s became %s' % (name, wrong[0][0], wrong[0][1]))
                         else:
                             bad('from_dataframe', 'values', 'not-reproduced', 'variable %s: %s became %s' % (name, cells[:6], new[name][:6]))
+        return fails
+    if k == 'container':
+        pre = {'span': {'labels': o['labels']}, 'names': [v[0] for v in o['index']], 'vars': o['index'], 'status': ['str', []], 'iterations': ['int', []]}
+        oracle_table(pre, o['table'], [False, False, True], 'to_dataframe', fails)
         return fails
     if k == 'linker':
         if 'raise' in o:
@@ -950,7 +978,9 @@ def oracle(case, o):
                 bad('symbols-roundtrip', 'lags-leads', 'rounded-through-float64',
                     'a lag / lead beyond 2^53 in a column that also holds None comes back rounded: %s -> %s' % (diff[0][0], diff[0][1]))
             else:
-                bad('symbols-roundtrip', '+'.join(fields) or 'length', 'not-the-original-list',
+                clause = ('text-fields' if set(fields) & {'name', 'equation', 'code'} else 'type' if set(fields) & {'type', 'type-class'}
+                          else '+'.join(fields) or 'length')
+                bad('symbols-roundtrip', clause, 'not-the-original-list',
                     'round trip returned %s for %s' % (json.dumps(rt)[:300], json.dumps(o['syms'])[:300]))
         return fails
     return fails
@@ -968,6 +998,9 @@ def nontrivial(case, o):
         if 'raise' in t or ('rt' in o and 'raise' in o['rt']):
             return True
         return len(t['index']['labels']) >= 2 and len(t['cols']) >= 2
+    if k == 'container':
+        t = o['table']
+        return 'raise' in t or (len(t['index']['labels']) >= 2 and len(t['cols']) >= 2)
     if k == 'linker':
         return 'raise' in o or (len(o['tables']) >= 2 and len(o['tables'][0][1]['index']['labels']) >= 2)
     if k == 'symbols':
@@ -983,6 +1016,8 @@ def bucket(case, o):
         rt = o.get('rt')
         return '%s/%s/%s/flags=%d%d%d/rt=%s' % (k, case['span']['type'], case.get('dtype', 'float'), *[int(x) for x in case['flags']],
                                                'none' if rt is None else rt['raise'] if 'raise' in rt else 'ok')
+    if k == 'container':
+        return 'container/%s/%s/%d-vars' % ('model' if case.get('model') else 'vc', case['span']['type'], len(case['vars']))
     if k == 'linker':
         return 'linker/%d-subs/%s' % (len(case['subs']), 'raise' if 'raise' in o else 'ok')
     if k == 'symbols':
@@ -1018,6 +1053,9 @@ def shrink_candidates(case):
     elif k == 'linker':
         for i in range(len(case['subs'])):
             yield dict(case, subs=case['subs'][:i] + case['subs'][i + 1:])
+    elif k == 'container':
+        for i in range(len(case['vars'])):
+            yield dict(case, vars=case['vars'][:i] + case['vars'][i + 1:])
 
 
 # --------------------------------------------------------------------------- generator
@@ -1154,7 +1192,22 @@ def gen(rng, tier):
                           'vals': {'X': [list(c) for c in POOL[dt][:3]] if len(POOL[dt]) >= 3 else [list(POOL[dt][i % 2]) for i in range(3)],
                                    '_Y': [list(POOL[dt][-1 - (i % 2)]) for i in range(3)]}, 'extra': [], 'status': None, 'iters': None,
                           'flags': [False, False, True], 'cls': {'names': ['X', '_Y'], 'dtype': cd, 'default': None, 'strict': True}})
-    reps = 2 if quick else 8
+    # every name set x every flag combination x every model dtype on a two-period span, natural round trip
+    two = {'type': 'list', 'labels': [['s', 'a'], ['s', 'b']]}
+    for names in NAME_SETS:
+        for dt in ('float', 'int', 'bool', 'str'):
+            for fl in range(8):
+                vals = {k: cells_for(rng, dt, 2) for k in names}
+                cases.append({'kind': 'export', 'span': two, 'dtype': dt, 'names': list(names), 'vals': vals, 'extra': [], 'status': None, 'iters': None,
+                              'flags': [bool(fl & 1), bool(fl & 2), bool(fl & 4)],
+                              'cls': {'names': list(names), 'dtype': dt, 'default': None, 'strict': not (fl & 3)} if fl & 4 or rng.random() < 0.5 else None})
+    # hand-edited names lists (malformed stream): duplicates, status / iterations, unknown names
+    for tam in (['X'], ['status'], ['iterations', 'X'], ['nope'], ['_Y', '_Y'], ['status', 'nope']):
+        for fl in range(8):
+            cases.append({'kind': 'export', 'span': base, 'dtype': 'float', 'names': ['X', '_Y'], 'vals': {'X': [['fi', 1], ['fi', 2], ['fi', 3]]},
+                          'extra': [], 'tamper': tam, 'status': [['s', '.'], ['s', 'F'], ['s', '-']], 'iters': [['i', 3], ['i', 100], ['i', -1]],
+                          'flags': [bool(fl & 1), bool(fl & 2), bool(fl & 4)], 'cls': None})
+    reps = 8 if quick else 40
     for spec in specs:
         for _ in range(reps):
             cases.append(gen_export(rng, spec, not quick))
@@ -1163,8 +1216,20 @@ def gen(rng, tier):
             n = span_len(spec)
             cases.append({'kind': 'solved', 'script': rng.choice(SCRIPTS), 'span': spec, 'x': cells_for(rng, 'float', n)[:n],
                           'max_iter': rng.choice([0, 1, 100]), 'flags': [True, True, rng.random() < 0.5]})
+    # plain containers (and VectorContainer.to_dataframe applied to a model object: status and iterations come first)
+    for spec in specs:
+        for _ in range(2 if quick else 10):
+            n = span_len(spec)
+            vs = []
+            for nm in rng.sample(['X', '_Y', 'status', 'Z_', 'iterations', 'B', '_'], rng.choice([0, 1, 2, 3, 4])):
+                d = rng.choice(['float', 'int', 'bool', 'str'])
+                vs.append([nm, d, cells_for(rng, d, n)])
+            model = rng.random() < 0.3
+            if model:
+                vs = [v for v in vs if v[0] not in ('status', 'iterations')]
+            cases.append({'kind': 'container', 'span': spec, 'vars': vs, 'model': model})
     # linkers
-    for _ in range(60 if quick else 400):
+    for _ in range(300 if quick else 2500):
         spec = rng.choice([s for s in specs if s['type'] in ('range', 'list') and all(l[0] in ('i', 's') for l in span_labels(s))])
         n = span_len(spec)
         k = rng.choice([0, 1, 2, 2, 3])
@@ -1182,13 +1247,13 @@ def gen(rng, tier):
     for ty in range(1, 10):
         cases.append({'kind': 'symbols', 'syms': [['X', ty, 0, 0, None, None]]})
         cases.append({'kind': 'symbols', 'syms': [['X', ty, 0, None, None, 'c'], [None, ty, None, 1, 'e', None]]})
-    for _ in range(400 if quick else 4000):
+    for _ in range(1500 if quick else 12000):
         cases.append({'kind': 'symbols', 'syms': made_symbols(rng)})
-    for _ in range(60 if quick else 600):
+    for _ in range(150 if quick else 1200):
         lines = rng.sample(SYM_SCRIPTS[:8] + SYM_SCRIPTS[18:], rng.choice([1, 2, 3]))
         cases.append({'kind': 'symbols', 'script': '\n'.join(lines)})
     # hand-made frames for dataframe_to_symbols
-    cases += t2s_cases(rng, 40 if quick else 300)
+    cases += t2s_cases(rng, 150 if quick else 1500)
     out, seen = [], set()
     for c in cases:
         h = lib.jhash(c)
